@@ -98,6 +98,17 @@ func (c *specCtx) tr(x *SExpr) Value {
 		base := c.tr(x.Args[0])
 		return c.field(base, x.Name, x)
 	case "index":
+		if inner := x.Args[0]; inner.Kind != "old" {
+			// m[k] on a map with boolean elements (the safe-type registry): the same uninterpreted lookup the code uses
+			if b := c.tr(inner); b.K == VU && b.Typ != nil {
+				if mt, ok := b.Typ.Underlying().(*types.Map); ok {
+					if kk, _ := kindOf(mt.Elem()); kk == VBool {
+						k := c.tr(x.Args[1])
+						return boolV(App("mapidx$bool", SBool, b.T, e.box(k)))
+					}
+				}
+			}
+		}
 		i := c.intTerm(x.Args[1])
 		if inner := x.Args[0]; inner.Kind != "old" {
 			if b := c.tr(inner); b.K == VSlice && b.ElemU {
@@ -635,9 +646,16 @@ func (c *specCtx) pureValue(key string, args []*Term) Value {
 				if args[i].Op == "app" && args[i].Name == "box$int" {
 					names[n] = intV(args[i].Args[0])
 				} else {
-					names[n] = uV(args[i])
+					nv := uV(args[i])
+					if i < len(fc.ParamTypes) {
+						nv.Typ = c.e.w.specType(fc.ParamTypes[i]) // so that methods can be called on it in the clauses
+					}
+					names[n] = nv
 				}
 			}
+		}
+		if v.K == VU && v.Typ == nil && fc.ResultType != "" {
+			v.Typ = c.e.w.specType(fc.ResultType)
 		}
 		names["result"] = v
 		if len(fc.Results) == 1 && fc.Results[0] != "_" {
@@ -651,6 +669,38 @@ func (c *specCtx) pureValue(key string, args []*Term) Value {
 		}
 	}
 	return v
+}
+
+// specType resolves a type written in a contract header ("reflect.Value", "*strings.Builder") for named types
+// of imported packages; nil when it cannot.
+func (w *World) specType(text string) types.Type {
+	ptr := strings.HasPrefix(text, "*")
+	text = strings.TrimPrefix(text, "*")
+	i := strings.LastIndex(text, ".")
+	if i < 0 {
+		return nil
+	}
+	pp, name := text[:i], text[i+1:]
+	if a, ok := importAlias[pp]; ok {
+		pp = a
+	}
+	var scope *types.Scope
+	if pk, ok := w.Pkgs[pp]; ok && pk.Types != nil {
+		scope = pk.Types.Scope()
+	} else if ip, err := w.std.Import(pp); err == nil {
+		scope = ip.Scope()
+	}
+	if scope == nil {
+		return nil
+	}
+	obj := scope.Lookup(name)
+	if obj == nil {
+		return nil
+	}
+	if ptr {
+		return types.NewPointer(obj.Type())
+	}
+	return obj.Type()
 }
 
 func (c *specCtx) pureValue0(key string, args []*Term) Value {
@@ -671,7 +721,11 @@ func (c *specCtx) pureValue0(key string, args []*Term) Value {
 	if fc := c.e.w.Cs.Funcs[key]; fc != nil && strings.HasSuffix(strings.TrimSpace(fc.Header), "string") {
 		return Value{K: VStr, Arr: App("unbox$str.arr", SArr, u), Off: App("unbox$str.off", SInt, u), Len: App("unbox$str.len", SInt, u)}
 	}
-	return uV(u)
+	r := uV(u)
+	if fc := c.e.w.Cs.Funcs[key]; fc != nil && fc.ResultType != "" {
+		r.Typ = c.e.w.specType(fc.ResultType)
+	}
+	return r
 }
 
 // pureSortOf derives the result sort of a pure function from its contract header.
